@@ -18,6 +18,7 @@ META = {
         "events each: both histories must match the reference from the copy point, every callback must run "
         "on its own instance's objects. "
         "typed and falsy state values, value-object (equal / unhashable) listeners, listeners attached through add_observer, public and _private custom attributes. "
+        "start_value (also on clones of not yet activated machines), falsy listeners. "
         "distinct_nontrivial = distinct (copy point class, mechanism, options, "
         "engine, late listeners, bound model) observed."
     ),
